@@ -1,19 +1,22 @@
 mod chain;
 mod model;
+mod sealdrv;
+mod stordrv;
 mod syncdrv;
 mod tap;
+mod taskdrv;
 
 use serde_json::Value;
 use std::io::{BufRead, Write};
 use std::path::PathBuf;
 
-fn arg(args: &[String], name: &str) -> Option<String> {
+pub fn arg(args: &[String], name: &str) -> Option<String> {
     args.iter()
         .position(|a| a == name)
         .and_then(|i| args.get(i + 1).cloned())
 }
 
-fn local_block_on<F: std::future::Future>(f: F) -> F::Output {
+pub fn local_block_on<F: std::future::Future>(f: F) -> F::Output {
     let rt = tokio::runtime::Builder::new_current_thread()
         .enable_all()
         .build()
@@ -51,8 +54,11 @@ fn main() {
             }
             eprintln!("replayed {n} behaviours");
         }
+        c if c.starts_with("task-") => taskdrv::main(&args),
+        c if c.starts_with("storage-") || c.starts_with("sqlite-") => stordrv::main(&args),
+        c if c.starts_with("seal-") => sealdrv::main(&args),
         _ => {
-            eprintln!("usage: tcverif <sync-replay> ...");
+            eprintln!("usage: tcverif <sync-replay|task-*|storage-*|sqlite-*|seal-*> ...");
             std::process::exit(2);
         }
     }
